@@ -1,5 +1,11 @@
+#[cfg(not(uflow_verif))]
 use std::net;
+#[cfg(uflow_verif)]
+use crate::verif::net;
+#[cfg(not(uflow_verif))]
 use std::time;
+#[cfg(uflow_verif)]
+use crate::verif::time;
 
 use crate::CHANNEL_COUNT;
 use crate::EndpointConfig;
